@@ -23,6 +23,9 @@ def gen(r, n):
     for d, t1 in ((2.5, 1.5), (4.5, 2.5), (3.5, 2.5)):
         scs.append(dict(u=150, period=20, ta=None, grace=2, leak=0.7, dur=d, on_term="exit", stops=False,
                         sigs=[(t1, "TSTP"), (t1 + 5, "CONT")]))
+    # a setup script stopped during its timeout grace period
+    scs.append(dict(u=150, period=1, ta=2, grace=2, leak=0.7, dur=8.5, on_term="ignore",
+                    sigs=[(2.5, "TSTP"), (6.5, "CONT")], as_script=True))
     # stop, continue, then interrupt
     scs.append(dict(u=150, period=20, ta=None, grace=2, leak=0.7, dur=9, on_term="ignore",
                     sigs=[(1.5, "TSTP"), (4.5, "CONT"), (5.5, "INT")]))
